@@ -68,6 +68,7 @@ Clause(r, e) ==
         ELSE IF e.a = "Lookup" THEN "lookup"
         ELSE IF e.a = "Write" THEN "write_error" ELSE "outcome")
   ELSE IF ToSetOf(o.live) # P.live THEN "liveness"
+  ELSE IF \E x \in LiveVec(P) : o.store[x] \notin Sid THEN "contents"      \* storage the recorder could not account for
   ELSE IF \E x \in LiveVec(P) : o.heap[o.store[x]] # Contents(P, x) THEN "contents"
   ELSE IF \E x, y \in LiveVec(P) : (o.store[x] = o.store[y]) # (P.store[x] = P.store[y]) THEN "sharing"
   ELSE IF \E x \in LiveVec(P) : o.kind[x] # P.kind[x] \/ o.nullable[x] # P.nullable[x] THEN "dtype"
